@@ -1409,7 +1409,8 @@ func (rn *Runner) Run() {
 		r.Emit("render", "id", i+1, "second", false)
 		// (only where the check asks for it - C18 -: folding thousands of calls through the specification is slow;
 		// a signed message is rendered twice per operation and is left out)
-		if o.calls != nil && built.Smime.Key == "" && os.Getenv("VERIF_B64") != "" {
+		// renderings with more than 1500 calls (large contents written in tiny chunks) are left out as well
+		if o.calls != nil && len(o.calls) <= 1500 && built.Smime.Key == "" && os.Getenv("VERIF_B64") != "" {
 			r.Emit("b64", "calls", o.calls)
 		}
 		Analyse(r, o.b, built, rn.TmpDir, fmt.Sprintf("%d-%d", rn.T, i), o.k)
